@@ -356,7 +356,7 @@ class C14Check(PoolCheckBase):
         "termination is judged with a deterministic fuel of %d line events inside skactiveml per query" % FUEL,
         "shape and dtype of the returned array are C01's business: the result is flattened before it is judged",
     ]
-    tiers = {"quick": {"runs": 1300, "wall_cap": 500, "chunk": 10}, "thorough": {"runs": 30000, "wall_cap": 3300, "chunk": 25}}
+    tiers = {"quick": {"runs": 4500, "wall_cap": 600, "chunk": 10}, "thorough": {"runs": 90000, "wall_cap": 3300, "chunk": 25}}
 
     def generate(self, rng: SimRng):
         key = pick_entry(rng.fork("entry"))
@@ -503,7 +503,7 @@ class C05Check(PoolCheckBase):
         "the position of a model's own tie-break generator (random_state_) is not part of the model fingerprint: predict is specified to draw from it",
         "exceptions raised by a query are outside this property (they abort the run, counted separately)",
     ]
-    tiers = {"quick": {"runs": 1000, "wall_cap": 500, "chunk": 10}, "thorough": {"runs": 24000, "wall_cap": 3300, "chunk": 25}}
+    tiers = {"quick": {"runs": 5000, "wall_cap": 600, "chunk": 10}, "thorough": {"runs": 100000, "wall_cap": 3300, "chunk": 25}}
 
     def generate(self, rng: SimRng):
         key = pick_entry(rng.fork("entry"))
@@ -726,7 +726,7 @@ class C06Check(PoolCheckBase):
         "every estimator supplied by the simulated caller carries an integer seed, so remaining dependence on the global generator originates in library code or in helpers it constructs itself",
         "consumption of the global generator by the library is only a probe steering the search, never a verdict (third-party estimators such as SVR draw an unused seed)",
     ]
-    tiers = {"quick": {"runs": 1000, "wall_cap": 500, "chunk": 10}, "thorough": {"runs": 24000, "wall_cap": 3300, "chunk": 25}}
+    tiers = {"quick": {"runs": 4500, "wall_cap": 600, "chunk": 10}, "thorough": {"runs": 90000, "wall_cap": 3300, "chunk": 25}}
 
     def generate(self, rng: SimRng):
         g = rng.fork("kind")
